@@ -1001,7 +1001,7 @@ class Converter(_Component):
         "name": "converter",
         "params": {
             "vo": {"typ": [int, float], "opt": False},
-            "eff": {"typ": [float, dict], "opt": False},
+            "eff": {"typ": [int, float, dict], "opt": False},
             "iq": {"typ": [int, float], "opt": True, "def": IQ_DEFAULT},
             "iis": {"typ": [int, float], "opt": True, "def": IIS_DEFAULT},
             "rt": {"typ": [int, float], "opt": True, "def": RT_DEFAULT},
